@@ -140,6 +140,11 @@ def run(ctx: Any, prog: Program) -> None:
     ms = bsp.methods('BSP')
     views = views_of(bsp)
     inline = {k: ms[k] for k in INLINE if k in ms}
+    # private methods of BSP (other than the lump readers/writers themselves) that pack or unpack are read in place too (`self._pack_leaf(...)`)
+    for q_, f_ in ms.items():
+        if q_.startswith('_') and not q_.startswith('__') and not q_.startswith('_lmp_') and q_ not in inline and any(
+                isinstance(c_, ast.Call) and isinstance(c_.func, ast.Attribute) and c_.func.attr in ('pack', 'pack_into', 'unpack', 'unpack_from', 'iter_unpack') for c_ in ast.walk(f_)):
+            inline[q_] = f_
     # private module-level helpers of bsp.py that pack or write (`_write_phys_block(buf, ...)` extracted from a lump writer) are read in place
     for q_, fl_ in bsp.all_funcs().items():
         if '.' not in q_ and q_.startswith('_') and len(fl_) == 1 and q_ not in inline and any(
